@@ -57,6 +57,15 @@ let err_kind = function
 
 let enc_patch fi cs = "P:" ^ enc_fi fi ^ ":" ^ enc_chunks cs
 
+(* line numbers of magnitude beyond 2^61: the formatters' int arithmetic is outside the model
+   (the harness does not format such patches again either) *)
+let two61 = z_of_string "2305843009213693952"
+let zabs = function M.Zneg p -> M.Zpos p | z -> z
+let zle a b = match M.Z.compare a b with M.Gt -> false | _ -> true
+let beyond_model cs =
+  List.exists (fun c -> List.exists (fun z -> not (zle (zabs z) two61)) [c.M.lStart; c.M.lEnd; c.M.rStart; c.M.rEnd]) cs
+let refmt cs f = if beyond_model cs then "big" else hex (f ())
+
 (* ---- the model's prediction ---- *)
 let render v fi cs = (M.x_normal cs, M.x_unified v fi cs, M.x_context fi cs)
 
@@ -64,10 +73,10 @@ let eval_d v kind fi cs =
   let (n, u, c) = render v fi cs in
   if kind = "A" then hex n ^ " " ^ hex u ^ " " ^ hex c else
   let (rn, fn) = match M.x_read_normal n with
-    | M.ROk cs' -> (enc_patch None cs', hex (M.x_normal cs'))
+    | M.ROk cs' -> (enc_patch None cs', refmt cs' (fun () -> M.x_normal cs'))
     | M.RErr e -> ("E:" ^ err_kind e, "x") in
   let (ru, fu) = match M.x_read_unified v u with
-    | M.ROk p -> (enc_patch p.M.p_info p.M.p_chunks, hex (M.x_unified v p.M.p_info p.M.p_chunks))
+    | M.ROk p -> (enc_patch p.M.p_info p.M.p_chunks, refmt p.M.p_chunks (fun () -> M.x_unified v p.M.p_info p.M.p_chunks))
     | M.RErr e -> ("E:" ^ err_kind e, "x") in
   String.concat " " [hex n; hex u; hex c; rn; ru; fn; fu]
 
@@ -89,11 +98,11 @@ let eval_v v inp =
   | [("D" | "S" | "A") as k; _l; _r; fi; cs] -> eval_d v k (dec_fi fi) (dec_chunks cs)
   | ["T"; "n"; t] ->
     (match M.x_read_normal (unhex t) with
-     | M.ROk cs -> enc_patch None cs ^ " " ^ hex (M.x_normal cs)
+     | M.ROk cs -> enc_patch None cs ^ " " ^ refmt cs (fun () -> M.x_normal cs)
      | M.RErr e -> "E:" ^ err_kind e ^ " x")
   | ["T"; "u"; t] ->
     (match M.x_read_unified v (unhex t) with
-     | M.ROk p -> enc_patch p.M.p_info p.M.p_chunks ^ " " ^ hex (M.x_unified v p.M.p_info p.M.p_chunks)
+     | M.ROk p -> enc_patch p.M.p_info p.M.p_chunks ^ " " ^ refmt p.M.p_chunks (fun () -> M.x_unified v p.M.p_info p.M.p_chunks)
      | M.RErr e -> "E:" ^ err_kind e ^ " x")
   | ["T"; "g"; t] -> enc_patches (M.x_read_git v (unhex t))
   | "G" :: _k :: rest ->
